@@ -93,7 +93,7 @@ fn c12_timer_check(src: &Src, pre: Pre, acts: Acts) -> (Pre, PV, bool) {
 sharness! {
     #[kani::unwind(30)]
     fn c12_timer() {
-        stubs::symbolic_clock();
+        frozen_clock();
         let (mut src, pre) = any_source(PvClass::V4Family);
         let acts = timer_step!(v4fam, src, pre);
         let (pre, post, sent) = c12_timer_check(&src, pre, acts);
@@ -113,7 +113,7 @@ sharness! {
 sharness! {
     #[kani::unwind(30)]
     fn c12_fallback() {
-        stubs::symbolic_clock();
+        frozen_clock();
         let (mut src, pre0) = any_source(PvClass::V5Family);
         let sel: u8 = kani::any();
         kani::assume(matches!(pre0.pv, PV::UpgradedToV5));
@@ -178,7 +178,7 @@ fn incoming_body(src: &mut Src, pre: &Pre, pkt: &[u8]) -> (bool, bool, bool, PV)
 sharness! {
     #[kani::unwind(12)]
     fn c12_incoming() {
-        stubs::symbolic_clock();
+        frozen_clock();
         let (mut src, pre) = any_source(PvClass::Any);
         let mut p = any_pkt4();
         let b0: u8 = kani::any();
@@ -201,10 +201,30 @@ sharness! {
     }
 }
 
+/// Confirmation of the upgrade (quick): an UpgradedToV5 association becomes V5 on a matching
+/// NTPv5 answer and ONLY then - a well-formed NTPv5 server packet with a foreign client cookie,
+/// or one that arrives late, leaves it in UpgradedToV5 (so that the fallback can still happen).
+/// One header combination (server mode, synchronized), all other header octets symbolic.
+sharness! {
+    #[kani::unwind(30)]
+    fn c12_confirm() {
+        frozen_clock();
+        let (mut src, pre) = any_source(PvClass::V5Family);
+        let mut p = any_pkt5();
+        kani::assume(matches!(pre.pv, PV::UpgradedToV5));
+        sh::set_protocol_version(&mut src, PV::UpgradedToV5);
+        p.set_hdr(0x2C, 0, 0, 0b001, b'9');
+        let (may, must, _marker, post) = incoming_body(&mut src, &pre, p.bytes());
+        kani::cover!(must && matches!(post, PV::V5), "matching NTPv5 answer confirms the upgrade");
+        kani::cover!(!may && pre.has_pending && pre.deadline >= pre.base && matches!(post, PV::UpgradedToV5), "NTPv5 packet with a foreign client cookie does not confirm");
+        kani::cover!(!may && pre.has_pending && origin_field(p.bytes()) == pre.pending_id && matches!(post, PV::UpgradedToV5), "late NTPv5 answer does not confirm");
+    }
+}
+
 sharness! {
     #[kani::unwind(30)]
     fn c12_incoming_v5() {
-        stubs::symbolic_clock();
+        frozen_clock();
         let (mut src, pre) = any_source(PvClass::Any);
         let mut p = any_pkt5();
         let sel: u8 = kani::any();
